@@ -183,6 +183,9 @@ func parsePossibility(input *input, relation *Relation) error {
 			continue
 		case ',', '|', 0: /* I'm out! */
 			if ret.Name == "" {
+				if ret.Arch != nil || ret.Version != nil || len(ret.Architectures.Architectures) != 0 || len(ret.StageSets) != 0 {
+					return errors.New("A restriction without a package name")
+				}
 				return nil // e.g. trailing comma in Build-Depends
 			}
 			relation.Possibilities = append(relation.Possibilities, *ret)
